@@ -1,4 +1,4 @@
-import DoitModel.Proofs.RunPar
+import DoitModel.Proofs.RunDeliver
 /-! # C01 — dependency-ordered execution under every schedule
 
 Property theorems only (model: `Model/Run.lean`; invariants: `Proofs/Run*.lean`).
@@ -69,6 +69,26 @@ theorem C01_no_overlap (inp : RunInput) (s : Sys) (hr : PReach inp s) (w w' : Na
     have : 0 < s.events.countP (Ev.isTerminalOf d) := List.countP_pos_iff.mpr hin
     unfold cTerm at hterm; omega
   | _ => simp [Ev.isStartOf] at hp
+
+/-- C01 with the dependencies a calc_dep task delivers at run time: the decidable predicate `monC01Order` — the very
+    monitor the driver evaluates on every implementation trace: before each `start t`, every task in
+    `depsAt inp n pre t` (task_dep, setup, calc_dep, the calc_deps delivered by finished calc_deps, transitively, and the
+    task_deps / target-owners of file_deps they delivered) has `add_success` or `skip_uptodate` in `pre` — holds on the
+    observable trace of every reachable state, for every bound `nTasks` of the fixed-point iteration -/
+theorem C01_order_monitor_serial (inp : RunInput) (s : Sys) (hr : Reach inp s) (nTasks : Nat) :
+    monC01Order inp nTasks (trace inp s) = true :=
+  monC01Order_of_inv (reach_inv2 hr) (reach_invG hr) nTasks
+
+theorem C01_order_monitor_parallel (inp : RunInput) (s : Sys) (hr : PReach inp s) (nTasks : Nat) :
+    monC01Order inp nTasks (trace inp s) = true :=
+  monC01Order_of_inv (preach_inv hr).1 (preach_invG hr) nTasks
+
+/-- the same on the raw event list (which also has the start marks of action-less group tasks): whatever `depsAt`
+    derives for `t` from ANY observed events is reported finished before `start t` -/
+theorem C01_order_delivered (inp : RunInput) (s : Sys) (hr : PReach inp s) (pre post : List Ev) (t w : Nat)
+    (he : s.events = pre ++ Ev.start t w :: post) (nTasks : Nat) (obs : List Ev) :
+    ∀ d ∈ depsAt inp nTasks obs t, Ev.success d ∈ post ∨ Ev.skipUtd d ∈ post :=
+  start_after_depsAt (preach_inv hr).1 (preach_invG hr) he nTasks obs
 
 /-! ### non-vacuity -/
 
